@@ -34,9 +34,10 @@ VARIABLES l,        \* index of the next line to consume
           txq,      \* node id -> [key, asked, given] : transactions requested / supplied for the stored proposal
           nviol,    \* number of formula failures reported so far
           cfgs,     \* node id -> static configuration (from the Start line)
-          ndiv      \* [checked, diverged, skipped] conformance counters
+          ndiv,     \* [checked, diverged, skipped] conformance counters
+          lastProp  \* the latest proposal broadcast in this run: [k, now, h] (C16)
 
-vars == <<l, run, st, acc, sent, lock, maxv, preOk, txq, nviol, cfgs, ndiv>>
+vars == <<l, run, st, acc, sent, lock, maxv, preOk, txq, nviol, cfgs, ndiv, lastProp>>
 
 \* TRUE: also check every logged call against the transition relation of DbftNode.tla
 CheckConformance == "VERIF_CONFORM" \in DOMAIN IOEnv /\ IOEnv.VERIF_CONFORM = "1"
@@ -53,6 +54,7 @@ NotStarted == [started |-> FALSE]
 NoKey == [h |-> -1]
 
 IsRunStart(x) == x.call = "RunStart"
+IsRunEnd(x) == x.call = "RunEnd"
 
 Cbs(e, k) == {j \in 1..Len(e.cb) : e.cb[j].k = k}
 Bcs(e) == Cbs(e, "Broadcast")
@@ -287,6 +289,38 @@ Silent(e, pre) ==
     w => Bcs(e) = {} /\ Cbs(e, "Sign") = {} /\ Cbs(e, "SetData") = {}
 SilentAt(e, j) == ~e.cb[j].at.watch
 
+-----------------------------------------------------------------------------
+\* C08 Fault-free synchronous runs decide every height in view 0, in any order
+\* (run.sync: all validators honest, every payload delivered before the next timer expiry)
+
+SyncRun == "sync" \in DOMAIN run /\ run.sync
+NoViewChangeAsked(e) == SyncRun => Bc(e, "ChangeView") = {} /\ Bc(e, "RecoveryRequest") = {}
+DecidedInView0(e, j) == SyncRun => e.cb[j].at.v = 0
+SameBlockInSync(e, j) == SyncRun => Forks(e, j) = {}
+HeightOf(x, n) == LET p == CHOOSE q \in Range(x.heights) : q[1] = n IN p[2]
+AllAtTarget(x) == \A n \in Range(x.live) : HeightOf(x, n) >= x.target
+DecidedThemselves(x) == \A n \in Range(x.live) :
+   \A h \in (run.params.h0 + 1)..x.target : \E k \in 1..Len(acc[n]) : acc[n][k].h = h
+
+\* C09 Recovery liveness (driver "faults": silent validators, healed partitions, restarts; bounded wait)
+FaultRun == run.driver = "faults"
+SilentViewBound(e, j) == (FaultRun /\ run.params.kind \in {"silent", "watch"}) => e.cb[j].at.v <= run.params.nsilent
+
+\* C16 Dynamic block time
+DynRun == SyncRun /\ run.params.maxTpb > 0
+MinGap(e, j) ==
+  (SyncRun /\ lastProp.k = "p" /\ e.cb[j].m.h = lastProp.h + 1 /\ e.cb[j].m.v = 0) =>
+     e.now - lastProp.now >= run.params.tpb - run.params.delayMax
+EmptyOnlyAfterMax(e, j) ==
+  (DynRun /\ lastProp.k = "p" /\ e.cb[j].m.h = lastProp.h + 1 /\ e.cb[j].m.v = 0 /\ e.cb[j].m.txs = <<>>) =>
+     e.now - lastProp.now >= run.params.maxTpb - run.params.delayMax
+\* a new-transaction notification during the extended wait makes the primary propose inside the same call
+PromptProposal(e, pre) ==
+  (e.call = "OnNewTransaction" /\ pre.started /\ pre.sub /\ ~pre.watch /\ ~pre.blockDone /\ pre.me = pre.primary /\ ~ReqStored(pre)
+     /\ pre.timer.k = "t" /\ pre.timer.h = pre.h /\ pre.timer.v = pre.v)
+  => Bc(e, "PrepareRequest") # {}
+SubscribeOnlyIfConfigured(e, cfg) == Cbs(e, "SubscribeForTxs") # {} => cfg.maxTpb > 0
+
 \* C06 (the part visible in every state): the primary is (h - v) mod n
 PrimaryOK(s) == s.started => s.primary = (s.h - s.v) % s.n /\ s.n = Len(s.vals)
 
@@ -340,7 +374,7 @@ Conforms(e, pre, cfg) ==
 -----------------------------------------------------------------------------
 \* The set of failed formulas of one step: <<property, formula, known-finding tag>>
 
-StepViolations(e, pre) ==
+StepViolations(e, pre, cfg) ==
   LET P(id, name, ok) == IF ok THEN {} ELSE {<<id, name, "">>}
       PerBlock == UNION { ( IF Forks(e, j) = {} THEN {}
                             ELSE {<<"C01", "Agreement",
@@ -349,6 +383,9 @@ StepViolations(e, pre) ==
                           \cup P("C02", "CertTip", CertTip(e, j))
                           \cup P("C02", "CertProposal", CertProposal(e, j))
                           \cup P("C05", "OneDecision", OneDecision(e, j))
+                          \cup P("C08", "DecidedInView0", DecidedInView0(e, j))
+                          \cup P("C08", "SameBlockInSync", SameBlockInSync(e, j))
+                          \cup P("C09", "SilentViewBound", SilentViewBound(e, j))
                         : j \in OkCb(e, "ProcessBlock") }
       PerPre == UNION { P("C02", "PreCertCount", PreCertCount(e, j)) \cup P("C02", "PreCertProposal", CertProposal(e, j))
                         \cup P("C07", "PreBlockOnce", PreBlockOnce(e, j) \/ \E k \in OkCb(e, "ProcessPreBlock") : k < j => FALSE)
@@ -357,6 +394,8 @@ StepViolations(e, pre) ==
                        \cup P("C03", "ViewMonotone", ViewMonotone(e, j))
                        \cup P("C13", "SilentAt", SilentAt(e, j))
                        \cup ( IF e.cb[j].m.t = "PrepareResponse" THEN P("C04", "ResponseEvidence", ResponseEvidence(e, j)) ELSE {} )
+                       \cup ( IF e.cb[j].m.t = "PrepareRequest"
+                              THEN P("C16", "MinGap", MinGap(e, j)) \cup P("C16", "EmptyOnlyAfterMax", EmptyOnlyAfterMax(e, j)) ELSE {} )
                        \cup ( IF /\ e.cb[j].m.t = (IF e.cb[j].at.amev THEN "PreCommit" ELSE "Commit")
                                  /\ FirstLock(e, j)
                               THEN P("C04", "CommitEvidence", CommitEvidence(e, j)) ELSE {} )
@@ -385,6 +424,10 @@ StepViolations(e, pre) ==
           \cup P("C11", "HeldTxsBelong", HeldTxsBelong(e.post))
           \cup P("C12", "Answers", Answers(e, pre))
           \cup P("C13", "Silent", Silent(e, pre))
+          \cup P("C08", "NoViewChangeAsked", NoViewChangeAsked(e))
+          \cup P("C16", "NoViewChangeAsked", ~DynRun \/ NoViewChangeAsked(e))
+          \cup P("C16", "PromptProposal", PromptProposal(e, pre))
+          \cup P("C16", "SubscribeOnlyIfConfigured", SubscribeOnlyIfConfigured(e, cfg))
 
 -----------------------------------------------------------------------------
 \* History updates
@@ -417,7 +460,7 @@ NextPreOk(e, pre) == (IF NewHeight(e, pre) THEN 0 ELSE preOk[e.n]) + Cardinality
 -----------------------------------------------------------------------------
 Init == /\ l = 1 /\ run = [call |-> "none"] /\ st = <<>> /\ acc = <<>> /\ sent = <<>> /\ lock = <<>>
         /\ maxv = <<>> /\ preOk = <<>> /\ txq = <<>> /\ nviol = 0
-        /\ cfgs = <<>> /\ ndiv = [checked |-> 0, diverged |-> 0, skipped |-> 0]
+        /\ cfgs = <<>> /\ ndiv = [checked |-> 0, diverged |-> 0, skipped |-> 0] /\ lastProp = None
         /\ TLCSet(1, ndiv)
 
 StartRun ==
@@ -432,6 +475,7 @@ StartRun ==
        /\ preOk' = [n \in ns |-> 0]
        /\ txq' = [n \in ns |-> [key |-> NoKey, asked |-> {}, given |-> {}]]
        /\ cfgs' = [n \in ns |-> [tpb |-> 0, maxTpb |-> 0, inc |-> 1, amevH |-> -1, watch |-> FALSE]]
+       /\ lastProp' = None
   /\ l' = l + 1 /\ UNCHANGED <<nviol, ndiv>>
 
 Report(e, x) == PrintT(<<"VIOL", x[1], x[2], x[3], run.run, e.i, e.n, e.call>>)
@@ -447,11 +491,11 @@ DivergeDetail(e, pre, cfg) ==
                   IF o.out = EffectsSeq(e) THEN "out-equal" ELSE <<"model-out", o.out, "real-out", EffectsSeq(e)>>>>)
 
 Step ==
-  /\ l <= Len(TLog) /\ ~IsRunStart(TLog[l])
+  /\ l <= Len(TLog) /\ ~IsRunStart(TLog[l]) /\ ~IsRunEnd(TLog[l])
   /\ LET e == TLog[l]
          pre == IF e.fresh THEN NotStarted ELSE st[e.n]
-         V == StepViolations(e, pre)
          cfg == IF "cfg" \in DOMAIN e THEN e.cfg ELSE cfgs[e.n]
+         V == StepViolations(e, pre, cfg)
          conf == IF ~CheckConformance \/ e.panic # "" THEN "off"
                  ELSE IF TooManyOrders(pre, e) THEN "skipped"
                  ELSE IF Conforms(e, pre, cfg) THEN "ok" ELSE "diverged"
@@ -472,9 +516,24 @@ Step ==
                 /\ maxv' = [maxv EXCEPT ![e.n] = NextMaxv(e, pre)]
                 /\ preOk' = [preOk EXCEPT ![e.n] = NextPreOk(e, pre)]
                 /\ txq' = [txq EXCEPT ![e.n] = NextTxq(e, pre)]
+        /\ lastProp' = (LET js == Bc(e, "PrepareRequest") IN
+                          IF js = {} \/ e.panic # "" THEN lastProp
+                          ELSE LET j == CHOOSE x \in js : \A y \in js : y <= x IN [k |-> "p", now |-> e.now, h |-> e.cb[j].m.h])
   /\ l' = l + 1 /\ UNCHANGED run
 
-Next == StartRun \/ Step
+EndViolations(x) ==
+  LET P(id, name, ok) == IF ok THEN {} ELSE {<<id, name, "">>} IN
+    (IF SyncRun THEN P("C08", "AllAtTarget", AllAtTarget(x)) \cup P("C08", "DecidedThemselves", DecidedThemselves(x)) ELSE {})
+    \cup (IF DynRun THEN P("C16", "AllAtTarget", AllAtTarget(x)) ELSE {})
+    \cup (IF FaultRun THEN P("C09", "AllAtTarget", AllAtTarget(x)) ELSE {})
+EndRun ==
+  /\ l <= Len(TLog) /\ IsRunEnd(TLog[l])
+  /\ LET V == EndViolations(TLog[l]) IN
+       /\ \A x \in V : PrintT(<<"VIOL", x[1], x[2], x[3], run.run, 0, -1, "RunEnd">>)
+       /\ nviol' = nviol + Cardinality(V)
+  /\ l' = l + 1 /\ UNCHANGED <<run, st, acc, sent, lock, maxv, preOk, txq, cfgs, ndiv, lastProp>>
+
+Next == StartRun \/ Step \/ EndRun
 Spec == Init /\ [][Next]_vars
 
 \* the whole file was consumed (checked when TLC has finished)
